@@ -28,14 +28,21 @@ Local Open Scope string_scope.
       values of Go's builtin len are taken to be non-negative), every string -- that meet the
       function's stated assumptions, to exactly the model's path condition at m.  So the number,
       nesting, order and polarity of the syntactic conditions are free, their meaning is not.
+      An item is found by its KIND and source -- `ret new` (a freshly built error), `ret err(src)`
+      (the error of call src, wrapped or not), a sentinel by its identifier, a call by its callee
+      -- not by the text of an error message: among the Go items of that class
+      ([go_items]: key k or "k:<text>") one must have the equivalent path condition.
+      [env_wf] holds the facts of the Go language the fragment uses: len >= 0, len(nil) = 0, a
+      lookup in an empty or nil map finds nothing and yields the zero value.
       [deval] has no default: an ill-typed expression, an unknown constant or a fragment the
       translator could not read ([DUnknown], also for a missing item) evaluates to None and
       fails this; an unreadable boolean ([DOpaque]) is an unconstrained atom. *)
 Theorem decision_item_agrees :
   forall (fm : fmodel) (k : string) (it : mitem),
     In fm model -> In (k, it) (fn_items fm) ->
-    forall m : menv, env_wf m -> all_hold m (map fst (fn_pre fm)) ->
-      deval m (go_item decisions (fn_name fm) k) = Some (mvalue it m).
+    exists g : dexp,
+      In g (go_items decisions (fn_name fm) k) /\
+      forall m : menv, env_wf m -> all_hold m (map fst (fn_pre fm)) -> deval m g = Some (mvalue it m).
 Proof. exact decision_item_agrees_lemma. Qed.
 Print Assumptions decision_item_agrees.
 
@@ -140,8 +147,8 @@ Theorem orders_and_filters_on_sites :
       p_keep (set_n "len(each(arg1).head.metadata.annotations)" (match aget policy_key (r_fields rs) with Some _ => 1%Z | None => 0%Z end)
              (set_b "has(each(arg1).head.metadata.annotations[helm.sh/resource-policy])"
                     (match aget policy_key (r_fields rs) with Some _ => true | None => false end)
-             (set_str "ToLower(TrimSpace(each(arg1).head.metadata.annotations[helm.sh/resource-policy]))"
-                    (match aget policy_key (r_fields rs) with Some v => to_lower (trim_space v) | None => "" end) env0))) /\
+             (set_str "each(arg1).head.metadata.annotations[helm.sh/resource-policy]"
+                    (match aget policy_key (r_fields rs) with Some v => v | None => "" end) env0))) /\
     owned_by rel_name rel_ns f
     = require_value_d managed_by_key "Helm" f && require_value_d rel_name_key rel_name f
       && require_value_d rel_ns_key rel_ns f.
@@ -211,7 +218,7 @@ Print Assumptions decisions_reject_unknown.
 Example decisions_accept_rewritten :
   (forall m : menv, env_wf m -> all_hold m [ANonNeg "arg2"] ->
      deval m (DAnd (DAnd (DNot (DLe (DVar TN "len(History)") (DVar TN "arg2")))
-                         (DNot (DEq (DSub (DVar TN "len(sorted(History))") (DVar TN "len(toDelete)")) (DVar TN "arg2"))))
+                         (DNot (DEq (DSub (DVar TN "len(sorted(History))") (DVar TN "len(new([]Release))")) (DVar TN "arg2"))))
                    (DNot (DAnd (DNot (DNil "Deployed"))
                                (DEq (DVar TN "each(sorted(History)).version") (DVar TN "Deployed.version")))))
      = Some (VB (p_rlr_pick m))) /\
